@@ -18,7 +18,10 @@ components of `ResolveRefsIn`) and `loadDoc` (`loadFromURIInternal` + `loadFromD
   `(componentDoc, componentPath)`, then the second walk of the value's children with the OUTER
   `(doc, documentPath)`; path items re-assign `(doc, documentPath)` instead, and a drilled path item that
   is itself a `$ref` is resolved (as a copy) before it is assigned (9b25d89).
-* a backtrack callback only assigns a value of its own kind (a04fe6c).
+* the in-progress set and the backtrack callbacks are keyed by kind AND reference text (7245059): the same text met
+  as another kind is resolved on its own.
+* a whole-file path item whose file is itself `{$ref: …}` is resolved (as a copy, against the file's location) before
+  it is assigned (376b90f).
 * reads performed before an error are part of the outcome (the log is kept on every path).
 
 Path items have no `Value`: the code tests `!pathItem.isEmpty()` instead; the model treats a path item
@@ -123,13 +126,14 @@ structure File where
   raw : List (String × Node)       -- fragment → element found by the raw drill of the re-read fallback
   conflict : Bool := false         -- as a single element it has both a `schema` and a `content` member (an error for a parameter)
   emptyPI : Bool := false          -- read as a path item it is empty (`isEmpty()`: no summary, description, operation, server, parameter)
+  selfRef : Option Ref := none     -- the file is `{"$ref": …}`: what a path-item reference to the whole file finds (`p.Ref != ""`)
 
 def refsViews : List (Kind × List Node) → List Ref
   | [] => []
   | (_, ks) :: rest => refsList ks ++ refsViews rest
 
 def File.refs (f : File) : List Ref :=
-  refsList f.tops ++ refsViews f.elems ++ refsList (f.typed.map (·.2)) ++ refsList (f.raw.map (·.2))
+  refsList f.tops ++ refsViews f.elems ++ refsList (f.typed.map (·.2)) ++ refsList (f.raw.map (·.2)) ++ f.selfRef.toList
 
 inductive Entry where
   | file | data | dataWithPath
@@ -189,8 +193,8 @@ structure St where
   oof : Bool                         -- out of fuel (never with enough fuel)
   docs : List Url                    -- `visitedDocuments`
   marks : List (Key × Val)           -- components whose `Value` is set
-  inprog : List String               -- `visitedRefs`
-  pend : List (String × Kind × Key)  -- `backtrack`: reference text, kind the callback accepts, component to assign
+  inprog : List (Kind × String)      -- `visitedRefs`, keyed by kind and reference text (7245059)
+  pend : List (String × Kind × Key)  -- `backtrack`: reference text and kind (the key), component to assign
   tr : List Nat                      -- branch trace (coverage evidence only; no definition reads it)
 
 def St.init : St := ⟨[], false, false, [], [], [], [], []⟩
@@ -215,17 +219,15 @@ def setMark (copy : Bool) (k : Key) (v : Val) (st : St) : St :=
 def addPend (copy : Bool) (text : String) (kind : Kind) (k : Key) (st : St) : St :=
   if copy then st else { st with pend := (text, kind, k) :: st.pend }
 
-/-- `unvisitRef(ref, value)`: the callbacks registered for `text` run with the value; a callback registered by a
-    resolver of another kind ignores it (type assertion `v, ok := value.(*Kind)`) -/
+/-- `unvisitRef(key, value)`: the callbacks registered under the key (kind, text) run with the value -/
 def unvisit (text : String) (kind : Kind) (v : Option Val) (st : St) : St :=
   { st with
-    inprog := st.inprog.erase text
-    pend := st.pend.filter (fun p => !(p.1 == text))
+    inprog := st.inprog.erase (kind, text)
+    pend := st.pend.filter (fun p => !(p.1 == text && decide (p.2.1 = kind)))
     marks := match v with
       | none => st.marks
       | some val => (st.pend.filter (fun p => p.1 == text && decide (p.2.1 = kind))).map (fun p => (p.2.2, val)) ++ st.marks
-    tr := (if (st.pend.any (fun p => p.1 == text && decide (p.2.1 = kind))) && v.isSome then [11] else []) ++
-          (if (st.pend.any (fun p => p.1 == text && !decide (p.2.1 = kind))) then [21] else []) ++ st.tr }
+    tr := (if (st.pend.any (fun p => p.1 == text && decide (p.2.1 = kind))) && v.isSome then [11] else []) ++ st.tr }
 
 /-- the guard `allowsExternalRefs`, then `resolvePathWithRef(ref, documentPath)`;
     also tells whether the location obtained is the resolution of the reference against the location of the
@@ -268,36 +270,46 @@ def resolve (inp : Input) : Nat → Cx → Home → Bool → Node → St → St 
       match assoc (home, id) st.marks with
       | some v => (tick 1 st, .ok (some v))
       | none =>
-        if r.text ∈ st.inprog then (tick 2 (addPend copy r.text kind (home, id) st), .ok none)
+        if (kind, r.text) ∈ st.inprog then (tick 2 (addPend copy r.text kind (home, id) st), .ok none)
         else
           match r.form with
           | .whole =>
             match guardExt inp cx home r with
-            | none => (tick 3 { st with inprog := r.text :: st.inprog }, .err)
+            | none => (tick 3 { st with inprog := (kind, r.text) :: st.inprog }, .err)
             | some (u, al) =>
               match storeAt inp u with
-              | none => (tick 12 (logRead al u { st with inprog := r.text :: st.inprog }), .err)
+              | none => (tick 12 (logRead al u { st with inprog := (kind, r.text) :: st.inprog }), .err)
               | some file =>
                 if file.parses then
                   -- resolveParameterRef: "cannot contain both schema and content in a parameter"
-                  if kind = .parameter && file.conflict then (tick 22 (logRead al u { st with inprog := r.text :: st.inprog }), .err) else
+                  if kind = .parameter && file.conflict then (tick 22 (logRead al u { st with inprog := (kind, r.text) :: st.inprog }), .err) else
                   -- `*pathItem = p` with an empty p: nothing to walk, the item stays unset, the callbacks copy an empty item
+                  if kind = .pathItem && file.selfRef.isSome then
+                    -- `p.Ref != ""`: `resolvePathItemRef(doc, &p, documentPath)` with the loaded file's location, then `*pathItem = p`
+                    match resolve inp f ⟨cx.doc, some u⟩ (some u, st.log.length + 1) true (.mk 0 .pathItem file.selfRef [])
+                        (tick 24 (logRead al u { st with inprog := (kind, r.text) :: st.inprog })) with
+                    | (st1, .err) => (st1, .err)
+                    | (st1, .ok none) => (tick 25 (unvisit r.text kind none st1), .ok none)
+                    | (st1, .ok (some val)) =>
+                      match walk inp f ⟨cx.doc, some u⟩ val.1 val.2 (setMark copy (home, id) val st1) with
+                      | (st2, ok) => (unvisit r.text kind (some val) st2, okRes ok val)
+                  else
                   if kind = .pathItem && file.emptyPI then
-                    (tick 23 (unvisit r.text kind none (logRead al u { st with inprog := r.text :: st.inprog })), .ok none) else
+                    (tick 23 (unvisit r.text kind none (logRead al u { st with inprog := (kind, r.text) :: st.inprog })), .ok none) else
                   match walk inp f ⟨cx.doc, some u⟩ (some u, st.log.length + 1) (file.elemAs kind)
                       (setMark copy (home, id) ((some u, st.log.length + 1), file.elemAs kind)
-                        (tick 4 (logRead al u { st with inprog := r.text :: st.inprog }))) with
+                        (tick 4 (logRead al u { st with inprog := (kind, r.text) :: st.inprog }))) with
                   | (st1, ok) =>
                     (unvisit r.text kind (some ((some u, st.log.length + 1), file.elemAs kind)) st1,
                      okRes ok ((some u, st.log.length + 1), file.elemAs kind))
-                else (tick 13 (logRead al u { st with inprog := r.text :: st.inprog }), .err)
+                else (tick 13 (logRead al u { st with inprog := (kind, r.text) :: st.inprog }), .err)
           | .internal =>
-            fragStep inp f cx home copy id kind r cx.doc cx.path { st with inprog := r.text :: st.inprog }
+            fragStep inp f cx home copy id kind r cx.doc cx.path { st with inprog := (kind, r.text) :: st.inprog }
           | .fragment =>
             match guardExt inp cx home r with
-            | none => (tick 3 { st with inprog := r.text :: st.inprog }, .err)
+            | none => (tick 3 { st with inprog := (kind, r.text) :: st.inprog }, .err)
             | some (u, al) =>
-              match loadDoc inp f al u { st with inprog := r.text :: st.inprog } with
+              match loadDoc inp f al u { st with inprog := (kind, r.text) :: st.inprog } with
               | (st1, false) => (st1, .err)
               | (st1, true) => fragStep inp f cx home copy id kind r (some u) (some u) (tick 5 st1)
 /-- `resolveComponent` after `resolveRefAndDocument`, and what the resolver does with its result -/
@@ -485,6 +497,7 @@ def expectedWalk : List (String × String × String × String) := [
   ("resolveCallbackRef", "resolveCallbackRef", "&resolved", ""),
   ("resolveCallbackRef", "resolvePathItemRef", "pathItems[name]", "sorted(pathItems)"),
   ("resolveLinkRef", "resolveLinkRef", "&resolved", ""),
+  ("resolvePathItemRef", "resolvePathItemRef", "&p", ""),
   ("resolvePathItemRef", "resolvePathItemRef", "&resolved", ""),
   ("resolvePathItemRef", "resolveParameterRef", "each(pathItem.Parameters)", "pathItem.Parameters"),
   ("resolvePathItemRef", "resolveParameterRef", "each(operation.Parameters)", "sorted(operations);operation.Parameters"),
